@@ -60,6 +60,12 @@ class Kinds:
                 return frozenset({node.func.id})
             if isinstance(node.func, ast.Attribute) and node.func.attr == "update" and not node.args:
                 return self._of(node.func.value, st, depth + 1)
+            if isinstance(node.func, ast.Name) and node.func.id == "transform_ast" and len(node.args) == 3 and node.func.id not in self.it.locals:
+                # ngo.utils.ast.transform_ast rewrites nodes of one kind BELOW its argument: the argument keeps its kind
+                # unless it is itself of the rewritten kind
+                inner = self._of(node.args[0], st, depth + 1)
+                if inner and isinstance(node.args[1], ast.Constant) and node.args[1].value not in inner:
+                    return inner
         return None
 
     def _elements(self, seq: ast.expr, st: State, depth: int) -> Optional[frozenset[str]]:
@@ -70,6 +76,8 @@ class Kinds:
             return self._elements(seq.args[1], st, depth)
         if isinstance(seq, (ast.GeneratorExp, ast.ListComp)) and len(seq.generators) == 1 and isinstance(seq.elt, ast.Name) and isinstance(seq.generators[0].target, ast.Name) and seq.elt.id == seq.generators[0].target.id:
             return self._elements(seq.generators[0].iter, st, depth)  # a filtered copy of the sequence
+        if isinstance(seq, ast.Call) and isinstance(seq.func, ast.Attribute) and seq.func.attr == "transform_args" and len(seq.args) >= 3:
+            return self._elements(seq.args[2], st, depth + 1)  # InlineTranslator.transform_args renames variables inside each given node
         if isinstance(seq, ast.Call) and isinstance(seq.func, ast.Name) and seq.func.id == "collect_ast" and len(seq.args) == 2 and isinstance(seq.args[1], ast.Constant) and seq.args[1].value in self.sch.kinds:
             return frozenset({seq.args[1].value})  # ngo.utils.ast.collect_ast(x, "Kind") returns nodes of that kind
         if isinstance(seq, ast.Name) and depth < 8:
